@@ -58,8 +58,8 @@ RULE = ("Hypothesis draws 2-5 distinct contracts (ETF/Stock/Index assets, ES/ZN/
 ASSUMPTIONS = [
     "oracle = naive dict model symbol -> {alive, bid, ask, sizes, history}; comparisons are exact (NaN-aware ==): the "
     "model performs the same single IEEE operations (ask+bid)/2 and ask-bid, no tolerance is needed",
-    "quotes are sound NBBOs: 0 <= bid <= ask <= 1.0001e6, sizes > 0 or omitted (default inf); crossed or NaN quotes "
-    "are not generated",
+    "quotes are sound NBBOs: 0 <= bid <= ask <= 1.0001e6, sizes > 0 or omitted (default inf); about one quote in seven "
+    "has an empty (NaN) bid, ask or both - it is processed like any other quote; crossed quotes are not generated",
     "the model trusts Future.last_trading_date and the member list of FutureChain(cls, start, end) (both are C19's "
     "subject); the lead is resolved in the model by a linear scan: earliest last trading date strictly after the "
     "clock, then `month` contracts further along the curve (FutureChain(month=k): k=1 prefers the second expiry)",
@@ -473,6 +473,11 @@ def _run(case, res):
         where = "after op %d %s" % (step, op)
         if code == "q":
             _, ci, kk, bid, ask, bsz, asz, dt = op
+            if bid is None or ask is None:
+                # an empty side (null in the case) is a quote like any other: the most recently processed one
+                res.tag("quote-with-empty-side")
+                bid = NAN if bid is None else bid
+                ask = NAN if ask is None else ask
             ci %= n
             mc = ctx.mcs[ci]
             t_ev = t_ev + timedelta(seconds=dt)
@@ -681,8 +686,16 @@ def _clock_candidates(marks, limit):
 
 
 def _mk_quote(t):
-    code, ci, kk, bid, spread, bsz, asz, dt = t
-    return [code, ci, kk, bid, bid + spread, bsz, asz, dt]
+    code, ci, kk, bid, spread, bsz, asz, dt = t[:8]
+    side = t[8] if len(t) > 8 else 0
+    ask = bid + spread
+    if side == 1:
+        bid = None
+    elif side == 2:
+        ask = None
+    elif side == 3:
+        bid = ask = None
+    return [code, ci, kk, bid, ask, bsz, asz, dt]
 
 
 def _weighted(strategy, k):
@@ -724,7 +737,7 @@ def histories(draw, tier="quick"):
                        st.floats(min_value=0.0, max_value=100.0, allow_nan=False))
     size = st.one_of(st.none(), st.integers(1, 10000), st.floats(min_value=0.5, max_value=1e6, allow_nan=False))
     quote = st.tuples(st.just("q"), ci, st.sampled_from([0, 0, 1]), price, spread, size, size,
-                      st.sampled_from([0, 1, 60, 86400])).map(_mk_quote)
+                      st.sampled_from([0, 1, 60, 86400]), st.sampled_from([0] * 17 + [1, 2, 3])).map(_mk_quote)
     disc = st.tuples(st.just("d"), ci, st.integers(0, 7), st.sampled_from([0, 0, 1]), st.sampled_from([0, 1, 60, 86400])).map(list)
     setclock = clock.map(lambda c: ["c", c[0], c[1]])
     qty = st.sampled_from([1, -1, 0, 0.5, -0.25, 1e-12, -1e-12, 1000, -7, 0.0, -0.0])
